@@ -19,6 +19,7 @@ type punctuatedReader struct {
 	nextSegment    []byte
 	thisSegment    []byte
 	errThisSegment error
+	errNextRead    error
 	buf            [4096]byte
 }
 
@@ -56,9 +57,18 @@ func (p *punctuatedReader) Read(out []byte) (n int, err error) {
 		usedBuffer = true
 		p.nextSegment = nil
 	} else {
+		if p.errNextRead != nil {
+			return 0, p.errNextRead
+		}
 		n, err = p.r.Read(out)
 		if err != nil {
-			return n, err
+			if n == 0 {
+				return 0, err
+			}
+			// The reader returned data along with an error. Process the
+			// data first, and report the error on the next call.
+			p.errNextRead = err
+			err = nil
 		}
 		src = out[0:n]
 	}
